@@ -119,7 +119,11 @@ func (fi *File) Open(ctx context.Context, flags Flags) (_ FileDescriptor, _retEr
 	// write instead of it waiting forever. Callers with no request context of
 	// their own (File.Flush) pass the MFS context, which is cancelled when MFS
 	// shuts down.
-	dmod, err := mod.NewDagModifier(ctx, node, fi.dagService, chunkerGen)
+	// The modifier edits the root node it is given in place when it syncs its
+	// write buffer. Give it its own copy: fi.node must keep showing the last
+	// flushed version until flushUp replaces it, and must not change under
+	// GetNode, Size or the parent's cacheSync.
+	dmod, err := mod.NewDagModifier(ctx, node.Copy(), fi.dagService, chunkerGen)
 	if err != nil {
 		return nil, err
 	}
